@@ -377,7 +377,7 @@ func init() {
 			if th {
 				return "9 payloads x value routes d<=2 x 10 emit forms x wrappers e<=2"
 			}
-			return "9 payloads x value routes d<=1 x 10 emit forms x wrappers e<=2; payload <>&'\" additionally with value routes d<=2 x wrappers e<=1"
+			return "9 payloads x value routes d<=1 x 11 emit forms x wrappers e<=2 (e<=1 for the five single-character payloads); payload <>&'\" additionally with value routes d<=2 x wrappers e<=1"
 		},
 	})
 }
@@ -522,6 +522,9 @@ func c01Run(t *engine.T, shard string) {
 				}
 				if wi == 0 {
 					continue // top > w2 is the same as w2 alone
+				}
+				if pi >= 1 && pi <= 5 && !t.Thorough {
+					continue // single special characters: one wrapper level in the quick tier (the combined payload runs two)
 				}
 				for w2 := 1; w2 < len(c01Wraps); w2++ {
 					c01Case(t, p, x, em, []int{wi, w2}, special)
